@@ -176,6 +176,42 @@ def value(ctx, R="R-C18-value"):
             if got in wants or any(S.compare(got, w, domain={})["verdict"] == "equal" for w in wants):
                 n_ok += 1
                 continue
+            # a special case for signals of fewer than two samples along the axis (nothing to difference against, nothing else
+            # changes for Dither): two more scenarios - long signals take the general path, short ones must still come back as the
+            # working array cast to the input dtype
+            def _len_test(x):
+                if x.op == "cmp" and x.args[0] in ("<", "<=", ">", ">=", "==", "!=") and x.args[2].is_const and x.args[2].value in (0, 1, 2):
+                    a_ = x.args[1]
+                    if (SC.is_call(a_, "getitem") and a_.args[1] == S.sym(sig + ".shape")) or a_ == S.sym(sig + ".size") or (SC.is_call(a_, "len") and a_.args[1] == sg):
+                        k_ = int(x.args[2].value)
+                        op_ = x.args[0]
+                        # truth for a long signal (length >= 2) and for a short, non-empty one (length 1)
+                        def tv(n_):
+                            return {"<": n_ < k_, "<=": n_ <= k_, ">": n_ > k_, ">=": n_ >= k_, "==": n_ == k_, "!=": n_ != k_}[op_]
+                        return tv(5), tv(1)
+                if x.op in ("not", "bool") and x.args[0] == S.sym(sig + ".ndim"):
+                    return (x.op == "bool"), (x.op == "bool")
+                return None
+            if any(_len_test(x) is not None for x in S.walk(got) if isinstance(x, S.E)):
+                def spec_len(e, which):
+                    out = e
+                    for _ in range(4):
+                        nxt = SC.transform(out, lambda x: (S.lift(_len_test(x)[which]) if _len_test(x) is not None else None))
+                        if nxt == out:
+                            break
+                        out = nxt
+                    return out
+                g_long, g_short = spec_len(got, 0), spec_len(got, 1)
+                ok_long = g_long in wants or any(S.compare(g_long, w, domain={})["verdict"] == "equal" for w in wants)
+                short_wants = wants + [S.call(".astype", W, dt, S.call("kw:copy", S.FALSE)), S.call(".astype", W, dt)] + ([sg] if (ip and f64 == "float64") else [])
+                ok_short = name == "Dither" and False or (g_short in short_wants or any(S.compare(g_short, w, domain={})["verdict"] == "equal" for w in short_wants))
+                if name == "Preemphasize" and ok_long and ok_short:
+                    n_ok += 1
+                    continue
+                if name == "Preemphasize" and ok_long and not ok_short and not SC.residual_conditions(g_short) and not S.has_unknown(g_short):
+                    ctx.bad(R, f, rnode, "[%s, fewer than two samples along the axis] apply returns %s ; documented: the working array cast back to the input dtype (%s)"
+                            % (sc, S.show(g_short)[:200], S.show(short_wants[-2 if not (ip and f64 == "float64") else -3])[:160]), what, robust=True)
+                    break
             calls, syms = SC.vocabulary(got)
             undecided = SC.residual_conditions(got) or S.has_unknown(got) or (calls - _VOCAB - _NOT_IDENTITY) or (syms - {sig, "self.coeff", sig + ".dtype", sig + ".shape", "numpy.float64", "axis", "Ellipsis"})
             msg = "[%s] apply returns %s ; documented: %s" % (sc, S.show(got)[:260], S.show(wants[0])[:260])
